@@ -279,6 +279,18 @@ def load_known():
         return {'findings': [], 'fixed': []}
 
 
+REQUIRED = os.path.join(VERIF, 'harness', 'required')
+
+
+def load_required(prop):
+    """harness/required/<Cxx>.txt -> list of `Module:Full.Theorem.Name` (or None when there is no list)."""
+    try:
+        with open(os.path.join(REQUIRED, prop + '.txt'), encoding='utf-8') as f:
+            return [l.strip() for l in f if l.strip() and not l.startswith('#')]
+    except FileNotFoundError:
+        return None
+
+
 SETS = os.path.join(VERIF, 'findings', 'sets')
 
 
@@ -298,7 +310,7 @@ def load_sets(prop):
     except OSError:
         return out
     for n in names:
-        if not n.endswith('.json'):
+        if not n.endswith('.json') or n == NARROW_FILE:
             continue
         try:
             with open(os.path.join(d, n), encoding='utf-8') as f:
@@ -311,6 +323,25 @@ def load_sets(prop):
         j['failing'] = set(j['failing'])
         out[j['signature']] = j
     return out
+
+
+NARROW_FILE = 'narrow.json'
+
+
+def load_narrow(prop):
+    """findings/sets/<property>/narrow.json: {recorded input-keyed signature (old spelling, no WHAT): [new-style signatures
+    observed for it on the unchanged tree]}.  An entry recorded under the old spelling then matches only these."""
+    path = os.path.join(SETS, prop, NARROW_FILE)
+    try:
+        with open(path, encoding='utf-8') as f:
+            j = json.load(f)
+    except FileNotFoundError:
+        return {}
+    except (OSError, ValueError) as e:
+        raise InfraError('unreadable %s: %s' % (path, e))
+    if j.get('property') != prop or not isinstance(j.get('narrow'), dict):
+        raise InfraError('malformed %s (property / narrow)' % path)
+    return j['narrow']
 
 
 def input_key(failing_input):
